@@ -22,6 +22,7 @@ import Alpaqa.Props.C06_Panoc
 import Alpaqa.Props.C03
 import Alpaqa.Gen.C19
 import Alpaqa.Proofs.PanocLoopExample
+import Alpaqa.Proofs.PanocFuel
 
 namespace Alpaqa.Props.C19Panoc
 open Alpaqa Alpaqa.Panoc Alpaqa.Gen Alpaqa.Gen.C19 Alpaqa.Props.C06
@@ -122,6 +123,7 @@ theorem stop_monotone_of_history (hist : List FlagAccess)
 
 /-! ### Loop theorems -/
 
+section generic
 variable {α D : Type} [Add α] [Sub α] [Mul α] [Div α] [Neg α] [LT α] [LE α] [DecidableLT α]
   [DecidableLE α] [BEq α] [RealLike α] [NatCast α] [OfScientific α]
   [OfNat α 0] [OfNat α 1] [OfNat α 2] [OfNat α 100]
@@ -353,7 +355,7 @@ end chain
     `Interrupted`, or it is the natural status whose condition held at the last head
     (`Converged ∧ ε ≤ tol'`, `MaxTime`, `MaxIter ∧ iterations = max_iter`, `NotFinite ∧ ε not
     finite`, `NoProgress ∧ counter > max_no_progress`). -/
-theorem interrupted_or_natural (P : Problem α) (dir : Direction D α) (d0 : D) (pr : Params α)
+theorem interrupted_or_natural_of_fuel (P : Problem α) (dir : Direction D α) (d0 : D) (pr : Params α)
     (stop : Nat → Bool) (hm : StopMono stop) (t0 : Nat) (h0 : stop t0 = true) (oot : Bool)
     (x0 y Sig errz0 gV : Vec α) (gS iS : α) (sh : St α D)
     (hfuel : (run P dir d0 pr stop oot x0 y Sig errz0 gV gS iS).fuelOut = false)
@@ -369,8 +371,8 @@ theorem interrupted_or_natural (P : Problem α) (dir : Direction D α) (d0 : D) 
       RealLike.isFinite (run P dir d0 pr stop oot x0 y Sig errz0 gV gS iS).stats.eps = false) ∨
     ((run P dir d0 pr stop oot x0 y Sig errz0 gV gS iS).stats.status = .NoProgress ∧
       sh.noProgress > pr.maxNoProgress) := by
-  have hc := C06Panoc.final_status_is_chain P dir d0 pr stop oot x0 y Sig errz0 gV gS iS sh hfuel hh
-  have he := C06Panoc.run_eq_exit P dir d0 pr stop oot x0 y Sig errz0 gV gS iS sh hfuel hh
+  have hc := C06Panoc.final_status_is_chain_of_fuel P dir d0 pr stop oot x0 y Sig errz0 gV gS iS sh hfuel hh
+  have he := C06Panoc.run_eq_exit_of_fuel P dir d0 pr stop oot x0 y Sig errz0 gV gS iS sh hfuel hh
   have ht := (exitBlock_fields P pr sh (epsOf P pr sh.curr)
     (statusOf pr sh.k (epsOf P pr sh.curr) sh.noProgress oot (stop sh.tick)) x0 y Sig errz0).2.2.2.2.2
   rw [← he.2] at ht
@@ -429,21 +431,93 @@ theorem mainLoop_fuel_suffices (P : Problem α) (dir : Direction D α) (pr : Par
     — the exit contract of `Props/C03.lean`, which already quantifies over all stop schedules:
     whenever results are written, `x_out` is the `x̂` of a proximal-gradient step, `y_out = ŷ(x_out)`,
     `err_z = (y_out − y_in)/Σ`; otherwise the caller's values are untouched. -/
-theorem outputs_consistent (P : Problem α) (dir : Direction D α) (d0 : D) (pr : Params α)
+theorem outputs_consistent_of_fuel (P : Problem α) (dir : Direction D α) (d0 : D) (pr : Params α)
     (stop : Nat → Bool) (oot : Bool) (x0 y Sig errz0 gV : Vec α) (gS iS : α)
     (hfuel : (run P dir d0 pr stop oot x0 y Sig errz0 gV gS iS).fuelOut = false) :
     ExitOK P x0 y Sig errz0 (run P dir d0 pr stop oot x0 y Sig errz0 gV gS iS) :=
-  C03.panoc_exit_contract P dir d0 pr stop oot x0 y Sig errz0 gV gS iS hfuel
+  C03.panoc_exit_contract_of_fuel P dir d0 pr stop oot x0 y Sig errz0 gV gS iS hfuel
+
+end generic
+
+/-! ### With the fuel hypothesis discharged
+
+`at_most_one_iteration_after_stop`, `ticks_after_stop_le`, `stop_at_head_exits`,
+`interrupted_linesearch_discards_candidate`, `init_interrupted_single_callback` need no fuel
+hypothesis.  The two theorems that do are restated here with the explicit hypotheses of
+`Proofs/PanocFuel.run_fuel_suffices` (`FuelOK pr n K`; the flag is monotone anyway), which also
+strengthens `mainLoop_fuel_suffices`: not only is the artificial `Exception` exit never taken, no
+loop of the model runs out of fuel. -/
+
+section fuel
+variable {α D : Type} [Field α] [LinearOrder α] [IsStrictOrderedRing α] [RealLike α]
+
+/-- **The model's fuel never runs out** (monotone flag, `FuelOK`): see `Proofs/PanocFuel`. -/
+theorem fuel_suffices (P : Problem α) (dir : Direction D α) (d0 : D) (pr : Params α)
+    (stop : Nat → Bool) (hm : StopMono stop) (n K : Nat) (hF : FuelOK pr n K) (oot : Bool)
+    (x0 y Sig errz0 gV : Vec α) (gS iS : α) :
+    (run P dir d0 pr stop oot x0 y Sig errz0 gV gS iS).fuelOut = false :=
+  run_fuel_suffices P dir d0 pr stop hm n K hF oot x0 y Sig errz0 gV gS iS
+
+/-- **Final status is `Interrupted` unless a higher-priority chain condition holds at that head**
+    (see `interrupted_or_natural_of_fuel`). -/
+theorem interrupted_or_natural (P : Problem α) (dir : Direction D α) (d0 : D) (pr : Params α)
+    (stop : Nat → Bool) (hm : StopMono stop) (t0 : Nat) (h0 : stop t0 = true) (n K : Nat)
+    (hF : FuelOK pr n K) (oot : Bool)
+    (x0 y Sig errz0 gV : Vec α) (gS iS : α) (sh : St α D)
+    (hh : C06Panoc.finalHead P dir d0 pr stop oot x0 gV gS iS = some sh)
+    (hlate : t0 + 2 ≤ (run P dir d0 pr stop oot x0 y Sig errz0 gV gS iS).ticks) :
+    (run P dir d0 pr stop oot x0 y Sig errz0 gV gS iS).stats.status = .Interrupted ∨
+    ((run P dir d0 pr stop oot x0 y Sig errz0 gV gS iS).stats.status = .Converged ∧
+      (run P dir d0 pr stop oot x0 y Sig errz0 gV gS iS).stats.eps ≤ effTol pr.tolerance) ∨
+    ((run P dir d0 pr stop oot x0 y Sig errz0 gV gS iS).stats.status = .MaxTime ∧ oot = true) ∨
+    ((run P dir d0 pr stop oot x0 y Sig errz0 gV gS iS).stats.status = .MaxIter ∧
+      (run P dir d0 pr stop oot x0 y Sig errz0 gV gS iS).stats.iterations = pr.maxIter) ∨
+    ((run P dir d0 pr stop oot x0 y Sig errz0 gV gS iS).stats.status = .NotFinite ∧
+      RealLike.isFinite (run P dir d0 pr stop oot x0 y Sig errz0 gV gS iS).stats.eps = false) ∨
+    ((run P dir d0 pr stop oot x0 y Sig errz0 gV gS iS).stats.status = .NoProgress ∧
+      sh.noProgress > pr.maxNoProgress) :=
+  interrupted_or_natural_of_fuel P dir d0 pr stop hm t0 h0 oot x0 y Sig errz0 gV gS iS sh
+    (run_fuel_suffices P dir d0 pr stop hm n K hF oot x0 y Sig errz0 gV gS iS) hh hlate
+
+/-- **Outputs of an interrupted solve satisfy the same consistency relations as any other exit.** -/
+theorem outputs_consistent (P : Problem α) (dir : Direction D α) (d0 : D) (pr : Params α)
+    (stop : Nat → Bool) (hm : StopMono stop) (n K : Nat) (hF : FuelOK pr n K) (oot : Bool)
+    (x0 y Sig errz0 gV : Vec α) (gS iS : α) :
+    ExitOK P x0 y Sig errz0 (run P dir d0 pr stop oot x0 y Sig errz0 gV gS iS) :=
+  C03.panoc_exit_contract P dir d0 pr stop hm n K hF oot x0 y Sig errz0 gV gS iS
+
+end fuel
 
 /-! ### Non-vacuity -/
 
 section examples
 open Alpaqa.Panoc.Example
 
-example : StopMono (stopAt (some 7)) := by
-  intro s t h hs
-  simp only [stopAt, decide_eq_true_eq] at *
-  omega
+example : StopMono (stopAt (some 7)) := C03.stopAt_mono (some 7)
+
+/-- `interrupted_or_natural` and `outputs_consistent` on the interrupted run, every hypothesis
+    discharged (`FuelOK prq 1 9`, no fuel assumption) -/
+example (sh : St ℚ Unit)
+    (hh : C06Panoc.finalHead Pq dirNoop () prq (stopAt (some 7)) false [1] [] 0 0 = some sh) :
+    (rq (some 7)).stats.status = .Interrupted ∨
+    ((rq (some 7)).stats.status = .Converged ∧ (rq (some 7)).stats.eps ≤ effTol prq.tolerance) ∨
+    ((rq (some 7)).stats.status = .MaxTime ∧ false = true) ∨
+    ((rq (some 7)).stats.status = .MaxIter ∧ (rq (some 7)).stats.iterations = prq.maxIter) ∨
+    ((rq (some 7)).stats.status = .NotFinite ∧ RealLike.isFinite (rq (some 7)).stats.eps = false) ∨
+    ((rq (some 7)).stats.status = .NoProgress ∧ sh.noProgress > prq.maxNoProgress) :=
+  interrupted_or_natural Pq dirNoop () prq (stopAt (some 7)) (C03.stopAt_mono (some 7)) 7
+    (by decide) 1 9 C03.fuelOK_prq false [1] [] [] [] [] 0 0 sh hh (by decide +kernel)
+
+example : ExitOK Pq [1] [] [] [] (rq (some 7)) :=
+  outputs_consistent Pq dirNoop () prq (stopAt (some 7)) (C03.stopAt_mono (some 7)) 1 9
+    C03.fuelOK_prq false [1] [] [] [] [] 0 0
+
+/-- `fuel_suffices` for the small-`L₀` variant: `L_max = 4 ≤ (1/16)·2⁶`, `(6+1)(9+1) = 70 ≤ lsFuel` -/
+example : (run Pq dirNoop () { prq with L0 := 1/16 } (stopAt (some 4)) false [1] [] [] [] [] 0 0).fuelOut
+    = false :=
+  fuel_suffices Pq dirNoop () { prq with L0 := 1/16 } (stopAt (some 4)) (C03.stopAt_mono (some 4)) 6 9
+    (by refine ⟨?_, ?_, ?_, ?_, ?_, by norm_num, ?_, ?_⟩ <;> norm_num [prq, Lstart])
+    false [1] [] [] [] [] 0 0
 
 /-- flag visible from tick 7: the run ends Interrupted at tick 9 ≤ 7 + 7, still in iteration 0,
     while the undisturbed run takes 18 ticks and two iterations. -/
